@@ -6,6 +6,7 @@ from .. import tables
 from ..canon import canon, single_assignments
 from ..pm import src
 from ..q import FA, call_name, guard_facts, is_self_attr, walk_no_nested, const
+from ..pat import find_stmt, find_expr, match_stmt, match_expr
 
 TECHNIQUE = "R-SIB on the parallel core-field tables, R-ORDER on registry co-update, R-WRITERS set equality between lazily cached properties and the invalidation method, def-use on dtype construction and positional pairing, effect rule (no copying primitive) for the unstructured view"
 
@@ -84,11 +85,13 @@ def run(ctx):
     ctx.require(len(ap_p) == 1 and len(ap_t) == 1 and len(st_d) == 1 and len(rs) == 1, "add_extra_parameters_to_live_points: expected one update of each of the three tables and one reset_properties call")
     same = _same_block(add.node, [aa.stmt(ap_p[0][0]), aa.stmt(ap_t[0][0]), aa.stmt(st_d[0])])
     ctx.ob("R-ORDER", "C18.2", add, "name, dtype and default of an extra field are registered together (same block, unconditionally w.r.t. each other)", same, "")
-    ctx.ob("R-SIB", "C18.2", add, "the registered default is appended at the same position as the name (tuple + (dv,))", canon(aa.stmt(st_d[0]).value) == "config.livepoints.extra_parameters_defaults + (dv,)" and src(ap_p[0][1].args[0]) == "p" and canon(ap_t[0][1].args[0]) == "config.livepoints.default_float_dtype", f"`{src(aa.stmt(st_d[0]))[:100]}`")
     loops = [n for n in aa.nodes() if n.kind == "for"]
-    ctx.ob("R-SIB", "C18.2", add, "names and default values are paired positionally (zip(parameters, default_values))", len(loops) == 1 and canon(loops[0].ast.iter) == "zip(parameters, default_values)" and canon(loops[0].ast.target) == "(p, dv)", "")
+    lb = match_stmt("for $$p, $$dv in zip(parameters, default_values):\n    $_rest", loops[0].ast) if len(loops) == 1 else None
+    ctx.ob("R-SIB", "C18.2", add, "names and default values are paired positionally (zip(parameters, default_values))", lb is not None, "")
+    P, DV = (src(lb["p"]), src(lb["dv"])) if lb else ("p", "dv")
+    ctx.ob("R-SIB", "C18.2", add, "the registered default is appended at the same position as the name (tuple + (dv,))", canon(aa.stmt(st_d[0]).value) == f"config.livepoints.extra_parameters_defaults + ({DV},)" and src(ap_p[0][1].args[0]) == P and canon(ap_t[0][1].args[0]) == "config.livepoints.default_float_dtype", f"`{src(aa.stmt(st_d[0]))[:100]}`")
     facts = [(canon(e), t) for e, t in guard_facts(aa, ap_p[0][0])]
-    ctx.ob("R-DOM", "C18.2", add, "a field is registered at most once (guard: not already registered)", ("p not in config.livepoints.extra_parameters", True) in facts or ("p in config.livepoints.extra_parameters", False) in facts, f"{facts}")
+    ctx.ob("R-DOM", "C18.2", add, "a field is registered at most once (guard: not already registered)", (f"{P} not in config.livepoints.extra_parameters", True) in facts or (f"{P} in config.livepoints.extra_parameters", False) in facts, f"{facts}")
     ctx.ob("R-ORDER", "C18.2", add, "every path that may change the registry ends by invalidating the caches (reset_properties after the loop, on every path)", aa.on_every_normal_path(rs[0][0]) and all(aa.cfg.can_follow(x, rs[0][0]) for x in (ap_p[0][0], ap_t[0][0], st_d[0])) and not aa.cfg.in_loop(rs[0][0]), "")
     rst = c.methods.get("reset")
     ra = FA(rst)
@@ -111,11 +114,12 @@ def run(ctx):
 
     # ---- C18.4 dtype construction and positional pairing --------------------------
     gd = ctx.fn(LP + ":get_dtype")
-    inl = single_assignments(gd.node)
-    d0 = [n for n in walk_no_nested(gd.node) if isinstance(n, ast.Assign) and src(n.targets[0]) == "dtype"]
-    aug = [n for n in walk_no_nested(gd.node) if isinstance(n, ast.AugAssign) and src(n.target) == "dtype"]
-    ok = len(d0) == 1 and canon(d0[0].value) == "[(n, array_dtype) for n in names]" and len(aug) == 1 and canon(aug[0].value) == "list(zip(config.livepoints.non_sampling_parameters, config.livepoints.non_sampling_dtype))"
-    ctx.ob("R-SIB", "C18.4", gd, "dtype = caller's names in caller's order, then (non-sampling name, dtype) pairs zipped from the two registry tables", ok, f"`{src(d0[0].value) if d0 else None}` ; `{src(aug[0].value) if aug else None}`")
+    d0 = find_stmt("$$d = [($$n, array_dtype) for $$n in names]", gd.node)
+    aug_ = find_stmt("$$d += list(zip(config.livepoints.non_sampling_parameters, config.livepoints.non_sampling_dtype))", gd.node, {"d": d0[0][1]["d"]} if d0 else None)
+    rt = find_stmt("return dtype($$d)", gd.node, {"d": d0[0][1]["d"]} if d0 else None)
+    aug = [n for n, b in aug_]
+    ok = len(d0) == 1 and len(aug) == 1 and len(rt) == 1
+    ctx.ob("R-SIB", "C18.4", gd, "dtype = caller's names in caller's order, then (non-sampling name, dtype) pairs zipped from the two registry tables", ok, "")
     ga = FA(gd)
     if aug:
         facts = [(canon(e), t) for e, t in guard_facts(ga, ga.cfg.id_of(aug[0]))]
@@ -123,15 +127,15 @@ def run(ctx):
     es = ctx.fn(LP + ":empty_structured_array")
     ea = FA(es)
     fills = [n for n in walk_no_nested(es.node) if isinstance(n, ast.For)]
-    okf = len(fills) == 1 and canon(fills[0].iter) == "zip(config.livepoints.non_sampling_parameters, config.livepoints.non_sampling_defaults)" and canon(fills[0].target) == "(nm, v)" and canon(fills[0].body[0]) == "struct_array[nm] = v"
+    okf = len(fills) == 1 and match_stmt("for $$k, $$v in zip(config.livepoints.non_sampling_parameters, config.livepoints.non_sampling_defaults):\n    $$arr[$$k] = $$v", fills[0]) is not None
     ctx.ob("R-SIB", "C18.4", es, "non-sampling fields take their registered defaults, paired by position (zip of names and defaults)", okf, "")
-    pf = [n for n in walk_no_nested(es.node) if isinstance(n, ast.Assign) and canon(n.targets[0]) == "struct_array[names]"]
-    ctx.ob("R-SIB", "C18.4", es, "parameter fields default to the float default (NaN)", len(pf) == 1 and canon(pf[0].value) == "config.livepoints.default_float_value", "")
+    pf = find_stmt("$$arr[names] = config.livepoints.default_float_value", es.node)
+    ctx.ob("R-SIB", "C18.4", es, "parameter fields default to the float default (NaN)", len(pf) == 1, "")
     dt = [c_ for c_ in walk_no_nested(es.node) if isinstance(c_, ast.Call) and call_name(c_) == "get_dtype"]
     ctx.ob("R-SIB", "C18.4", es, "empty arrays get their dtype from get_dtype(names, ...)", len(dt) == 1 and src(dt[0].args[0]) == "names", "")
     na = ctx.fn(LP + ":numpy_array_to_live_points")
     loops = [n for n in walk_no_nested(na.node) if isinstance(n, ast.For)]
-    okn = len(loops) == 1 and canon(loops[0].iter) == "enumerate(names)" and canon(loops[0].target) == "(i, n)" and canon(loops[0].body[0]) == "struct_array[n] = array[..., i]"
+    okn = len(loops) == 1 and match_stmt("for $$i, $$n in enumerate(names):\n    $$arr[$$n] = array[..., $$i]", loops[0]) is not None
     ctx.ob("R-SIB", "C18.4", na, "column i of a plain array goes to field names[i] (enumerate(names))", okn, "")
     for q, want_params, want_names in (
         (LP + ":parameters_to_live_point", "[(*parameters, *config.livepoints.non_sampling_defaults)]", "names"),
@@ -149,10 +153,12 @@ def run(ctx):
                 detail = src(c_)[:120]
         ctx.ob("R-SIB", "C18.4", f, "single-point constructor builds its dtype with get_dtype(<caller's names>) and appends the non-sampling defaults after the parameters", ok and "*config.livepoints.non_sampling_defaults" in src(f.node), detail)
     df = ctx.fn(LP + ":dataframe_to_live_points")
-    ctx.ob("R-SIB", "C18.4", df, "data-frame rows become tuple(row) + defaults with dtype get_dtype(list(df.dtypes.index))", "tuple(x) + extra for x in df.values" in src(df.node) and "get_dtype(list(df.dtypes.index)" in src(df.node) and "extra = config.livepoints.non_sampling_defaults" in src(df.node), "")
+    ex = find_stmt("$$e = config.livepoints.non_sampling_defaults", df.node)
+    rw = find_expr("array([tuple($$r) + $$e for $$r in df.values], dtype=get_dtype(list(df.dtypes.index), non_sampling_parameters=non_sampling_parameters))", df.node, ex[0][1] if ex else None)
+    ctx.ob("R-SIB", "C18.4", df, "data-frame rows become tuple(row) + defaults with dtype get_dtype(list(df.dtypes.index))", len(ex) == 1 and len(rw) == 1, "")
     ld = ctx.fn(LP + ":live_points_to_dict")
     rr = [n for n in walk_no_nested(ld.node) if isinstance(n, ast.Return)]
-    ctx.ob("R-SIB", "C18.4", ld, "dict conversion maps each name to its own field", len(rr) == 1 and canon(rr[0].value) == "{f: live_points[f] for f in names}", "")
+    ctx.ob("R-SIB", "C18.4", ld, "dict conversion maps each name to its own field", len(rr) == 1 and match_expr("{$$f: live_points[$$f] for $$f in names}", rr[0].value) is not None, "")
     la = ctx.fn(LP + ":live_points_to_array")
     rr = [n for n in walk_no_nested(la.node) if isinstance(n, ast.Return)]
     ctx.ob("R-SIB", "C18.4", la, "array conversion selects the requested names in the requested order", len(rr) == 1 and canon(rr[0].value) == "rfn.structured_to_unstructured(live_points[names], copy=copy)", f"`{src(rr[0].value) if rr else None}`")
@@ -169,10 +175,10 @@ def run(ctx):
     ctx.ob("R-SIB", "C18.5", uv, "the view is a strided reinterpretation of the same buffer: ndarray(x.shape, dtype, x, 0, x.strides).view((float dtype, len(dtype)))", len(rr) == 1 and canon(rr[0].value) == "ndarray(x.shape, dtype, x, 0, x.strides).view((config.livepoints.default_float_dtype, len(dtype)))", f"`{src(rr[0].value) if rr else None}`")
     vd = ctx.fn(LP + ":_unstructured_view_dtype")
     rr = [n for n in walk_no_nested(vd.node) if isinstance(n, ast.Return)]
-    ctx.ob("R-SIB", "C18.5", vd, "the view's dtype takes exactly the requested names with the offsets of the source array", len(rr) == 1 and canon(rr[0].value) == "dtype({name: x.dtype.fields[name] for name in names})", "")
+    ctx.ob("R-SIB", "C18.5", vd, "the view's dtype takes exactly the requested names with the offsets of the source array", len(rr) == 1 and match_expr("dtype({$$n: x.dtype.fields[$$n] for $$n in names})", rr[0].value) is not None, "")
     mv = ctx.fn(tables.MODEL + ".unstructured_view")
     rr = [n for n in walk_no_nested(mv.node) if isinstance(n, ast.Return)]
-    ctx.ob("R-SIB", "C18.5", mv, "Model.unstructured_view windows exactly the model's parameters (dtype computed from self.names)", len(rr) == 1 and canon(rr[0].value) == "unstructured_view(x, dtype=self._view_dtype)" and "_unstructured_view_dtype(x, self.names)" in src(prog.cls(tables.MODEL).methods["_view_dtype"].node), "")
+    ctx.ob("R-SIB", "C18.5", mv, "Model.unstructured_view windows exactly the model's parameters (dtype computed from self.names)", len(rr) == 1 and canon(rr[0].value) == "unstructured_view(x, dtype=self._view_dtype)" and len(find_stmt("$$x = empty_structured_array(0, self.names)", prog.cls(tables.MODEL).methods["_view_dtype"].node)) == 1 and len(find_expr("_unstructured_view_dtype($$x, self.names)", prog.cls(tables.MODEL).methods["_view_dtype"].node)) >= 1, "")
     ctx.floor("C18.5", 6)
     ctx.assumptions += ["numpy structured-array semantics (field assignment by name, np.ndarray(buffer=...) shares memory); value round-trips for arbitrary names/shapes and pandas behaviour are not decided"]
 
